@@ -1,4 +1,5 @@
-(* C18_Corr.v — correspondence vocabulary for C18.  A case is: the `settings:` block the
+(* C18_Corr.v — correspondence vocabulary for C18.  Two kinds of cases (see [case] at the
+   end): limiter level and operator level.  A limiter-level case is: the `settings:` block the
    harness wrote into a hook configuration (values known to the generator: the interval
    in ns and the integer burst; None = key absent), a list of synthetic request instants
    (ns), a RateLimitWait probe (n calls with a deadline [budget] ns away), and what the
@@ -30,7 +31,7 @@ Record obs := mkObs {
   o_wall : Z
 }.
 
-Record case := mkCase {
+Record lcase := mkCase {
   c_raw : option raw_settings;
   c_arrivals : list Z;
   c_probe_n : N;
@@ -40,7 +41,7 @@ Record case := mkCase {
 
 Definition is_none {A} (o : option A) : bool := match o with None => true | Some _ => false end.
 
-Definition model_obs (c : case) : obs :=
+Definition model_obs_l (c : lcase) : obs :=
   match limiter_of_config (c_raw c) with
   | None => mkObs false false 0 [] [] 0
   | Some b =>
@@ -56,8 +57,8 @@ Definition close (tol : Z) (a b : option Z) : bool :=
   | _, _ => false
   end.
 
-Definition agrees (c : case) : bool :=
-  let m := model_obs c in
+Definition agrees_l (c : lcase) : bool :=
+  let m := model_obs_l c in
   let o := c_obs c in
   Bool.eqb (o_loaded m) (o_loaded o)
   && Bool.eqb (o_inf m) (o_inf o)
@@ -65,10 +66,9 @@ Definition agrees (c : case) : bool :=
   && list_eqb (close (if o_inf m then 0 else 1)) (o_acts m) (o_acts o)
   && list_eqb Bool.eqb (o_probe m) (o_probe o).
 
-Definition mismatches (cs : list case) : list N := indices_where (fun c => negb (agrees c)) cs.
 
 (* the (I, B) the user configured, as the property text reads them *)
-Definition configured (c : case) : option (option settings) :=
+Definition configured (c : lcase) : option (option settings) :=
   match c_raw c with
   | None => Some None
   | Some r => match r_interval r, r_burst r with
@@ -80,7 +80,7 @@ Definition configured (c : case) : option (option settings) :=
 (* P on the implementation's observations: the window bound on the granted instants, the
    wall-clock bound on the RateLimitWait probe, and "not throttled" without settings.
    A configuration that was rejected runs nothing. *)
-Definition P_case (c : case) : bool :=
+Definition P_case_l (c : lcase) : bool :=
   let o := c_obs c in
   if negb (o_loaded o) then true else
   match configured c with
@@ -91,4 +91,173 @@ Definition P_case (c : case) : bool :=
       && match cfg with None => forallb (fun x => x) (o_probe o) | Some _ => true end
   end.
 
+
+(* ======================================================================================
+   Operator level.  A case is: the hooks (bindings, queues, allowFailure ...) and the
+   settings each hook's configuration carried (I in ns, B), a script of actions with the
+   instant (ns since the start of the scenario, one monotonic clock) at which the harness
+   issued each of them, and what the REAL operator (assembled in-process on a fake cluster,
+   hooks = scripted stubs, the queues' back-off shortened through TaskQueue.ExponentialBackoffFn)
+   showed at the quiescent point after every action: the content of every queue, the open
+   executions, the unlocked monitors, the queues whose worker was sleeping in
+   Hook.RateLimitWait (positively observed: queue status "run first task", no execution
+   open, and the limiter of the head task's hook holds a reservation for the future), and
+   every execution start with the hook and the measured instant.
+
+   The observation vocabulary below is the one of the shared operator harness (Op_Corr.v as
+   of commit a93bce0), copied for the same reason as the task-flow model in C18_Model. *)
+Close Scope Z_scope.
+Open Scope N_scope.
+(* what a hook is shown of one context: (binding, kind code, group, object) *)
+Definition hookctx := (N * N * N * N)%type.
+Definition K_Startup : N := 0.  Definition K_Sync : N := 1.  Definition K_Event : N := 2.
+Definition K_Schedule : N := 3. Definition K_Group : N := 4. Definition K_V0 : N := 5.
+
+Definition kind_code (k : ckind) : N :=
+  match k with KStartup => K_Startup | KSync => K_Sync | KEvent => K_Event | KSchedule => K_Schedule end.
+
+(* MapV1 / MapV0 reduced to what the harness reads back *)
+Definition render_ctx (v0 : bool) (c : ctx) : hookctx :=
+  if v0 then (c_binding c, K_V0, 0, c_obj c)
+  else match c_kind c with
+       | KStartup => (c_binding c, K_Startup, 0, 0)
+       | k => if N.eqb (c_group c) 0 then (c_binding c, kind_code k, 0, c_obj c)
+              else (c_binding c, K_Group, c_group c, 0)
+       end.
+
+Record qobs := mkQO { qo_name : N; qo_items : list task; qo_running : bool; qo_worker_stopped : bool }.
+Record eobs := mkEO { eo_queue : N; eo_hook : N; eo_ctxs : list hookctx }.
+Record sobs := mkSO {
+  so_queues : list qobs;       (* sorted by queue number *)
+  so_execs : list eobs;        (* open executions, sorted by queue number *)
+  so_unlocked : list N;        (* unlocked monitors, sorted, no duplicates *)
+  so_started : list eobs;      (* executions that started during the step (implementation only; order of starts) *)
+  so_bad : bool                (* the harness saw something impossible in any model (second execution in a
+                                  queue, no quiescence) *)
+}.
+
+Fixpoint insert_q (q : qstate) (l : list qstate) : list qstate :=
+  match l with
+  | [] => [q]
+  | x :: r => if N.leb (q_name q) (q_name x) then q :: x :: r else x :: insert_q q r
+  end.
+Definition sort_queues (l : list qstate) : list qstate := fold_right insert_q [] l.
+
+Fixpoint insert_N (n : N) (l : list N) : list N :=
+  match l with
+  | [] => [n]
+  | x :: r => if N.eqb n x then l else if N.ltb n x then n :: l else x :: insert_N n r
+  end.
+Definition sort_dedup (l : list N) : list N := fold_right insert_N [] l.
+
+
+Definition hook_v0 (cfg : config) (h : N) : bool :=
+  match find_hook cfg h with Some x => h_v0 x | None => false end.
+
+Definition observe (cfg : config) (s : state) : sobs :=
+  let qs := sort_queues (queues s) in
+  mkSO (map (fun q => mkQO (q_name q) (q_items q) (is_running q) (stopped s && negb (is_running q))) qs)
+       (flat_map (fun q => match q_running q, q_items q with
+                           | Some _, t :: _ => [mkEO (q_name q) (t_hook t)
+                                                     (map (render_ctx (hook_v0 cfg (t_hook t))) (t_ctxs t))]
+                           | _, _ => []
+                           end) qs)
+       (sort_dedup (unlocked s))
+       [] false.
+
+(* ---- equality of observations ---- *)
+Definition btype_eqb (a b : btype) : bool :=
+  match a, b with BOnStartup, BOnStartup | BKube, BKube | BSchedule, BSchedule => true | _, _ => false end.
+Definition ckind_eqb (a b : ckind) : bool :=
+  match a, b with KStartup, KStartup | KSync, KSync | KEvent, KEvent | KSchedule, KSchedule => true | _, _ => false end.
+Definition ttype_eqb (a b : ttype) : bool :=
+  match a, b with HookRun, HookRun | EnableKube, EnableKube | EnableSched, EnableSched => true | _, _ => false end.
+Definition ctx_eqb (a b : ctx) : bool :=
+  N.eqb (c_binding a) (c_binding b) && ckind_eqb (c_kind a) (c_kind b)
+  && N.eqb (c_group a) (c_group b) && N.eqb (c_obj a) (c_obj b).
+Definition task_eqb (a b : task) : bool :=
+  ttype_eqb (t_type a) (t_type b) && N.eqb (t_hook a) (t_hook b) && btype_eqb (t_btype a) (t_btype b)
+  && list_eqb ctx_eqb (t_ctxs a) (t_ctxs b) && Bool.eqb (t_allow a) (t_allow b)
+  && N.eqb (t_group a) (t_group b) && list_eqb N.eqb (t_mids a) (t_mids b)
+  && Bool.eqb (t_execsync a) (t_execsync b) && N.eqb (t_queue a) (t_queue b) && N.eqb (t_fail a) (t_fail b).
+Definition hookctx_eqb (a b : hookctx) : bool :=
+  match a, b with (a1, a2, a3, a4), (b1, b2, b3, b4) => N.eqb a1 b1 && N.eqb a2 b2 && N.eqb a3 b3 && N.eqb a4 b4 end.
+Definition qobs_eqb (a b : qobs) : bool :=
+  N.eqb (qo_name a) (qo_name b) && list_eqb task_eqb (qo_items a) (qo_items b)
+  && Bool.eqb (qo_running a) (qo_running b) && Bool.eqb (qo_worker_stopped a) (qo_worker_stopped b).
+Definition eobs_eqb (a b : eobs) : bool :=
+  N.eqb (eo_queue a) (eo_queue b) && N.eqb (eo_hook a) (eo_hook b) && list_eqb hookctx_eqb (eo_ctxs a) (eo_ctxs b).
+(* [so_started] is an implementation-side record only; [so_bad] must be false *)
+Definition sobs_eqb (m i : sobs) : bool :=
+  list_eqb qobs_eqb (so_queues m) (so_queues i) && list_eqb eobs_eqb (so_execs m) (so_execs i)
+  && list_eqb N.eqb (so_unlocked m) (so_unlocked i) && negb (so_bad i).
+
+Close Scope N_scope.
+Open Scope Z_scope.
+
+Record opcase := mkOpCase {
+  oc_cfg : config;
+  oc_settings : hook_settings;
+  oc_times : list Z;               (* instant of every action *)
+  oc_acts : list action;
+  oc_steps : list sobs;            (* implementation: observation after every action *)
+  oc_waiting : list (list N);      (* implementation: queues seen waiting in RateLimitWait, sorted *)
+  oc_starts : list (N * Z)         (* implementation: every execution start (hook, instant), in order *)
+}.
+
+Definition op_script (c : opcase) : list (Z * action) := List.combine (oc_times c) (oc_acts c).
+Definition op_trace (c : opcase) : list lstate := trace_lim (oc_cfg c) (oc_settings c) (op_script c).
+Definition op_final (c : opcase) : lstate := run_lim (oc_cfg c) (init_lim (oc_settings c)) (op_script c).
+
+Definition op_model_steps (c : opcase) : list (sobs * list N) :=
+  map (fun ls => (observe (oc_cfg c) (l_op ls), sort_dedup (map fst (l_waiting ls)))) (op_trace c).
+
+Definition step_eqb (m i : sobs * list N) : bool :=
+  sobs_eqb (fst m) (fst i) && list_eqb N.eqb (snd m) (snd i).
+
+Definition agrees_op (c : opcase) : bool :=
+  Nat.eqb (length (oc_times c)) (length (oc_acts c))
+  && Nat.eqb (length (oc_steps c)) (length (oc_waiting c))
+  && sortedb (oc_times c)
+  && list_eqb step_eqb (op_model_steps c) (List.combine (oc_steps c) (oc_waiting c))
+  (* as many executions of every hook as the model starts *)
+  && forallb (fun h => Nat.eqb (length (starts_in (h_id h) (l_log (op_final c))))
+                               (length (starts_of (h_id h) (oc_starts c)))) (oc_cfg c)
+  (* inside the model's domain: no action at or after a pending wake-up *)
+  && negb (l_overrun (op_final c)).
+
+(* the hooks a worker was seen waiting for: head task of every queue seen waiting *)
+Definition head_hook (s : sobs) (q : N) : list N :=
+  match find (fun qo => N.eqb (qo_name qo) q) (so_queues s) with
+  | Some qo => match qo_items qo with t :: _ => [t_hook t] | [] => [] end
+  | None => []
+  end.
+Definition observed_throttled (c : opcase) : list N :=
+  flat_map (fun p => flat_map (head_hook (fst p)) (snd p)) (List.combine (oc_steps c) (oc_waiting c)).
+
+(* P on the implementation's observations: the window bound on the measured start
+   instants of every hook with settings, no waiting for hooks without; a crash, a hook that
+   could not be loaded or a scenario that never became quiescent violates P *)
+Definition P_case_op (c : opcase) : bool :=
+  forallb (fun s => negb (so_bad s)) (oc_steps c)
+  && P_op (oc_settings c) (oc_starts c) (observed_throttled c).
+
+(* ---- both kinds ---- *)
+Inductive case := CLim (c : lcase) | COp (c : opcase).
+
+Inductive mobs :=
+| MLim (o : obs)
+| MOp (steps : list (sobs * list N)) (starts : list (N * Z)) (throttled : list N) (overrun : bool).
+
+Definition model_obs (c : case) : mobs :=
+  match c with
+  | CLim c => MLim (model_obs_l c)
+  | COp c => MOp (op_model_steps c) (starts_all (l_log (op_final c))) (throttled_in (l_log (op_final c)))
+                 (l_overrun (op_final c))
+  end.
+
+Definition agrees (c : case) : bool := match c with CLim c => agrees_l c | COp c => agrees_op c end.
+Definition P_case (c : case) : bool := match c with CLim c => P_case_l c | COp c => P_case_op c end.
+
+Definition mismatches (cs : list case) : list N := indices_where (fun c => negb (agrees c)) cs.
 Definition spec_violations (cs : list case) : list N := indices_where (fun c => negb (P_case c)) cs.
